@@ -189,13 +189,18 @@ def decide(prop, tier, seed, repo, workdir, a, t0):
             m = _re.match(r"(frame\.store_sites/frame\[[^\]]+\])", name)
             if m and any(k.startswith(m.group(1)) for k in baseline):
                 in_baseline = True
+            # a failed frame obligation is a syntactic fact about the tree (a store to module state, or a call listed as changing interpreter-wide state): it is
+            # decided whether or not the function existed on the pinned tree; writes of a contract-less helper to its own parameters are undecided, not failed
+            if name.startswith("frame.store_sites/frame[") and ("external call" in name or "global statement" in name or "'G'" in str(o.get("detail"))):
+                in_baseline = "decided"
             # a bounded harness runs the code on concrete, well-formed inputs that passed on the pinned tree: an exception there is an outcome
             if r.get("engine") == "E2" and "/no_unexpected_exception@" in name and any(k.startswith(r["harness"] + "/") for k in baseline):
                 in_baseline = True
         if reproduced or same_prop_concrete:
             violations.append((path, "%s obligation failed: %s" % (r.get("engine", "E1"), name), ""))
         elif in_baseline:
-            violations.append((path, "%s obligation failed (was proved on the pinned tree): %s" % (r.get("engine", "E1"), name), " no-failing-input-found"))
+            why = "a fact of the tree's text, decided without the pinned tree" if in_baseline == "decided" else "was proved on the pinned tree"
+            violations.append((path, "%s obligation failed (%s): %s" % (r.get("engine", "E1"), why, name), " no-failing-input-found"))
         else:
             undecided.append("%s: failed but neither in the baseline nor reproducible - reported as undecided" % name)
     for f in new_e3:
